@@ -15,7 +15,7 @@ RULE = ('G1 programs under hostile layout (multi-line strings and comments, LF/C
         'assignment and label forms - of its operator token, and lies inside the node\'s extent (placeholders for '
         'omitted for(;;) clauses exempt from 2); (3) every literal-token table entry agrees with the reference '
         'line/column and an reference token with exactly that text starts there (comma run: a comma), except the '
-        '`;` entry of a statement whose terminator the reference marks as inserted. non-trivial = source spans >= 3 '
+        '`;` entry of a statement whose terminator the reference marks as inserted; (4) every comment node attached under comment capture satisfies (1) and records the text found at its offset. non-trivial = source spans >= 3 '
         'lines with >= 2 terminator kinds or a multi-line token, and contains a node kind with special-cased '
         'position (for clauses, elision, property identifier, var initialiser, new, accessor); distinct by text')
 ASSUMPTIONS = c03.ASSUMPTIONS + ['reference position arithmetic harness/positions.py']
@@ -135,6 +135,21 @@ def check_tree(acc, opens, case, text, tree, ref):
         if bad:
             acc.fail(classify(bad), case, {'bucket': 'position:' + kind, 'why': bad}, opens)
             return None
+    # comment nodes attached by comment capture are nodes of the returned tree as well
+    from calmjs.parse.walkers import Walker
+    for n in [tree] + list(Walker().walk(tree)):
+        cs = getattr(n, 'comments', None)
+        if cs is None:
+            continue
+        for c in cs.children():
+            bad = consistent(c, '%s of %s' % (type(c).__name__, type(n).__name__))
+            if not bad and text[c.lexpos:c.lexpos + len(c.value)] != c.value:
+                bad = '%s %r recorded at offset %d where the text reads %r' % (
+                    type(c).__name__, c.value[:30], c.lexpos, text[c.lexpos:c.lexpos + len(c.value)][:30])
+            if bad:
+                acc.fail(None, case, {'bucket': 'position:Comment', 'why': bad}, opens)
+                return None
+            kinds.add('Comment')
     return kinds, count
 
 
